@@ -30,9 +30,14 @@ check('C08',
       parts=[dict(name='int', harness='c08_numeric', variant='plain',
                   quick=dict(args=['part=int', 'intbits=20'], deadline=60),
                   thorough=dict(args=['part=int', 'intbits=31'], deadline=780)),
+             # the same conversions under ASan/UBSan on a small set (every fatal report costs a forked worker)
              dict(name='int-san', harness='c08_numeric', variant='san', hang_s=60,
-                  quick=dict(args=['part=int', 'intbits=10', 'block=32', 'nostride=1', 'fork=1'], deadline=60),
-                  thorough=dict(args=['part=int', 'intbits=12', 'block=32', 'nostride=1', 'fork=1'], deadline=300)),
+                  quick=dict(args=['part=int', 'intbits=6', 'block=4', 'nostride=1', 'edged=1', 'edgek=1', 'edgeend=3', 'guard=1'], deadline=60),
+                  thorough=dict(args=['part=int', 'intbits=8', 'block=16', 'nostride=1', 'edged=2', 'edgek=1', 'edgeend=8', 'guard=1'], deadline=300)),
              dict(name='float', harness='c08_numeric', variant='san', hang_s=60,
-                  quick=dict(args=['part=float', 'K=2000', 'J=20', 'jtop=10', 'kbits=10', 'nbin=4096', 'kbitstop=4', 'fork=1'], deadline=80),
-                  thorough=dict(args=['part=float', 'K=100000', 'J=1000', 'jtop=100', 'kbits=12', 'nbin=65536', 'kbitstop=6', 'fork=1'], deadline=780))])
+                  quick=dict(args=['part=float', 'K=2000', 'J=20', 'jtop=1', 'kbits=10', 'nbin=4096', 'kbitstop=1', 'guard=1'], deadline=80),
+                  thorough=dict(args=['part=float', 'K=60000', 'J=600', 'jtop=2', 'kbits=12', 'nbin=65536', 'kbitstop=2', 'guard=1'], deadline=780)),
+             # the neighbourhood of 2^31 with large bounds, without sanitizers (the unchanged tree has UB on every other value there)
+             dict(name='float-top', harness='c08_numeric', variant='plain',
+                  quick=dict(args=['part=float', 'only=top', 'jtop=200', 'kbitstop=10'], deadline=60),
+                  thorough=dict(args=['part=float', 'only=top', 'jtop=5000', 'kbitstop=14'], deadline=300))])
